@@ -197,3 +197,20 @@ def c04d(ctx):
     for o in sub.obs:
         (ctx.ok if o.status == 'ok' else ctx.bad)('%s:%s' % (o.rule, o.construct), o.msg, o.where)
     ctx.stats['functions'] |= sub.stats['functions']
+
+
+@rule('C04.e', floor=1)
+def c04e(ctx):
+    """a tile cut at the border of a (buffer-truncated) meta image is pasted at the overhang offset, not at (0, 0)"""
+    fn = ctx.fn('mapproxy/image/tile.py:TileSplitter.get_tile')
+    defs = Defs(fn.node)
+    pastes = [x for x in fn.walk() if is_call(x, 'result.paste', 'paste') and len(x.args) >= 2]
+    ok = bool(pastes)
+    for p in pastes:
+        pos = p.args[1]
+        elts = pos.elts if isinstance(pos, ast.Tuple) else []
+        names = {k: {n for n, ds in defs.defs.items() for v, sel in ds if sel == k and unparse(v) == 'crop_coord'} for k in (0, 1)}
+        ok = ok and len(elts) == 2 and contains(elts[0], lambda y: isinstance(y, ast.Name) and y.id in names[0]) and \
+            contains(elts[1], lambda y: isinstance(y, ast.Name) and y.id in names[1])
+    ctx.check(ok, 'TileSplitter.get_tile:paste-at-overhang', 'the clipped crop is pasted at an offset that depends on the (negative) crop x and y', fn,
+              fail='the clipped crop of a border tile is pasted at a fixed position: tiles whose crop starts outside the meta image are shifted')
